@@ -36,9 +36,10 @@ WIDTHS = {
 
 # The closed rewrite table (DESIGN 2.3). (rule id, regex, replacement, justification)
 GLOBAL_REWRITES = [
-    ('R5a', r'crate::Error::(\w+)\(\s*"[^"]*"\s*,?\s*\)', r'E::\1', 'error payload dropped, variant kept'),
+    ('R5a', r'(?:crate|gmsol_model)::Error::(\w+)\(\s*"[^"]*"\s*,?\s*\)', r'E::\1', 'error payload dropped, variant kept'),
+    ('R5f', r'(?:crate|gmsol_model)::Error::(\w+)\(\s*"[^"]*"\s*,\s*\w+\.to_string\(\)\s*,\s*\w+\.to_string\(\)\s*,?\s*\)', r'E::\1', 'error payload (message and two formatted values) dropped, variant kept'),
     ('R5e', r'crate::Error::(\w+)\(\s*crate::error::\w+\s*,?\s*\)', r'E::\1', 'error payload (message constant) dropped, variant kept'),
-    ('R5b', r'crate::Error::(\w+)\b', r'E::\1', 'error variant'),
+    ('R5b', r'(?:crate|gmsol_model)::Error::(\w+)\b', r'E::\1', 'error variant'),
     ('R8a', r'\|_\|', r'|_e|', 'closure parameter must be a variable in Verus'),
     ('R8b', r'\.ok_or_else\(\s*\|\|\s*', r'.ok_or(', 'ok_or_else(|| e) == ok_or(e) for a pure error value'),
     ('R5c', r'error!\(\s*CoreError::(\w+)\s*\)', r'E::Other', 'anchor error value: payload dropped (no contract depends on the variant)'),
@@ -53,6 +54,7 @@ GLOBAL_REWRITES = [
     ('R4b', r'\bT::UNIT\b', 'N::UNIT', 'UNIT constant of the instance'),
     ('R1a', r'\bT::zero\(\)', 'N::zero()', 'monomorphisation'),
     ('R1b', r'\bT::one\(\)', 'N::one()', 'monomorphisation'),
+    ('R16c', r'(?m)^\s*#\[cfg\(feature = "debug-msg"\)\]\s*\n\s*let [^;]*;', '', 'statement compiled only with the debug-msg feature (used only by debug_msg! logs) dropped'),
     ('R7a', r'(?m)^\s*#\[(inline|allow\([^\]]*\)|must_use)\]\s*$', '', 'attribute dropped'),
     ('R12', r'\bfor _ in\b', 'for _it in', 'loop variable must be named'),
     ('R9', r'\bfor &(\w+) in (\w+)\.iter\(\)\.take\(([^{}]+?)\)\s*\{', r'for _i9 in 0..(if (\3) < \2.len() { \3 } else { \2.len() }) { let \1 = \2[_i9];',
@@ -213,7 +215,7 @@ def rewrite_debug_asserts(body, unit, log):
 def rewrite_msg_macros(body, unit, log):
     """R16: `msg!(...)` (solana program log) has no effect on state or result: the statement is dropped.
     Its arguments are plain reads in every use the extractor meets (format arguments)."""
-    pat = re.compile(r'\bmsg!\s*\(')
+    pat = re.compile(r'(?:\bcrate::)?\b(?:debug_)?msg!\s*\(')
     out, i, n = '', 0, 0
     while True:
         m = pat.search(body, i)
@@ -292,9 +294,12 @@ def rewrite_body(body, unit, log):
         dropped = body[cut:]
         body = body[:cut] + '\n' + rep + '\n'
         log.append(f"CUT in {unit['id']}: {len(dropped.strip().splitlines())} lines after `{marker}` dropped, replaced by `{rep.strip()}`")
-    for pat, rep in unit.get('subs', []):
+    for sub in unit.get('subs', []):
+        pat, rep, optional = (sub + (False,))[:3]
         cnt = len(re.findall(pat, body))
         if cnt == 0:
+            if optional:   # a type-bridging rewrite that has nothing to rewrite on this tree: not an anchor
+                continue
             raise Undecided(f"unit {unit['id']}: unit rewrite {pat!r} no longer matches (lost anchor)")
         body = re.sub(pat, rep, body)
         log.append(f"unit-sub x{cnt} in {unit['id']}: {pat} => {rep}")
@@ -368,11 +373,11 @@ def _parse_lines(lines, path, out):  # list of ('text', str) | ('prelude', width
                 val = val.strip()
                 if key in ('file', 'within', 'fn', 'sig'):
                     u[key] = val
-                elif key == 'sub':
+                elif key in ('sub', 'subopt'):
                     if val.endswith(' =>'):
                         val += ' '
                     a, _, b = val.partition(' => ')
-                    u['subs'].append((a, b))
+                    u['subs'].append((a, b, key == 'subopt'))
                 elif key == 'loop':
                     k, _, t = val.partition(':')
                     u['loops'][int(k)] = u['loops'].get(int(k), '') + t.strip() + '\n'
